@@ -40,18 +40,29 @@ Theorem C04_gen_sweepA_is_model : forall fs front, gen_sweepA fs front = sweepA 
 Proof. exact gen_sweepA_eq. Qed.
 Print Assumptions C04_gen_sweepA_is_model.
 
-(* sortNDHelperB (same fuel) *)
-Theorem C04_gen_sortNDHelperB_is_model : forall fuel best worst obj front, gen_sortNDHelperB fuel best worst obj front = helperB fuel best worst obj front.
+(* sweepB: never out of fuel (the bound on the while loop suffices), and the model's result, when the tuples of `best`
+   are not empty *)
+Theorem C04_gen_sweepB_is_model : forall best worst front, Forall (fun f => f <> []) best ->
+  gen_sweepB best worst front = Some (sweepB best worst front).
+Proof. exact gen_sweepB_eq. Qed.
+Print Assumptions C04_gen_sweepB_is_model.
+
+(* sortNDHelperB (same fuel); fitness tuples are not empty (sweepB tests the truth value of a tuple) *)
+Theorem C04_gen_sortNDHelperB_is_model : forall fuel best worst obj front, Forall (fun f => f <> []) best ->
+  gen_sortNDHelperB fuel best worst obj front = helperB fuel best worst obj front.
 Proof. exact gen_sortNDHelperB_eq. Qed.
 Print Assumptions C04_gen_sortNDHelperB_is_model.
 
 (* sortNDHelperA (same fuel) *)
-Theorem C04_gen_sortNDHelperA_is_model : forall fuel fs obj front, gen_sortNDHelperA fuel fs obj front = helperA fuel fs obj front.
+Theorem C04_gen_sortNDHelperA_is_model : forall fuel fs obj front, Forall (fun f => f <> []) fs ->
+  gen_sortNDHelperA fuel fs obj front = helperA fuel fs obj front.
 Proof. exact gen_sortNDHelperA_eq. Qed.
 Print Assumptions C04_gen_sortNDHelperA_is_model.
 
-(* sortLogNondominated itself, regenerated = the model, for every non-empty population (individuals[0] raises on the empty one) *)
-Theorem C04_gen_sort_log_is_model : forall pop k ffo, pop <> [] -> gen_sortLogNondominated pop k ffo = sort_log pop k ffo.
+(* sortLogNondominated itself, regenerated = the model, for every non-empty population (individuals[0] raises on the empty one)
+   of individuals with at least one objective *)
+Theorem C04_gen_sort_log_is_model : forall pop k ffo, pop <> [] -> (forall x, In x pop -> iw x <> []) ->
+  gen_sortLogNondominated pop k ffo = sort_log pop k ffo.
 Proof. exact gen_sortLogNondominated_eq. Qed.
 Print Assumptions C04_gen_sort_log_is_model.
 
@@ -61,6 +72,15 @@ Theorem C04_gen_sweepA_correct : forall fs front,
   A_postR (dom_pref 1) fs front (gen_sweepA fs front).
 Proof. exact gen_sweepA_correct. Qed.
 Print Assumptions C04_gen_sweepA_correct.
+
+(* C04_sweepB_correct on the regenerated sweepB *)
+Theorem C04_gen_sweepB_correct : forall best worst front,
+  sorted2 best -> sorted2 worst -> NoDup worst ->
+  (forall l, In l best -> (2 <= length l)%nat) -> (forall h, In h worst -> (2 <= length h)%nat) ->
+  (forall l, In l best -> ~ In l worst) -> (forall h, In h worst -> In h (kkeys front)) ->
+  exists front', gen_sweepB best worst front = Some front' /\ B_postR (ge_pref 1) best worst front front'.
+Proof. exact gen_sweepB_correct. Qed.
+Print Assumptions C04_gen_sweepB_correct.
 
 (* C04_helperA_correct on the regenerated sortNDHelperA *)
 Theorem C04_gen_helperA_correct : forall Mlen fuel m S fr fr',
